@@ -217,7 +217,16 @@ def one_case(ctx, cid, seed, mode):
         if mode == 'faults' and rng.random() < 0.06:
             finish_ok = False
             faults.append('fsync@%s/%s/.%s/data.tar.zst=EIO' % (w.root, store.group_name(w.now), bname))
-        store.write_config(w.cfg, 'b', w.root, cfg_items, 3, 3)
+        # one case in ten runs on a storage that already holds a full group of the day before, under limits (1, 1): the run
+        # opens a new group and an old one is due for removal - whatever the run reported
+        preseed = mode == 'faults' and cid % 10 == 4
+        if preseed:
+            pre_item = os.path.join(w.base, 'pre-item')
+            os.makedirs(pre_item, exist_ok=True)
+            open(os.path.join(pre_item, 'old'), 'w').write('old')
+            store.write_config(w.cfg + '.pre', 'b', w.root, [{'path': pre_item}], 1, 1)
+            store.run_vsb(ctx, ['-c', w.cfg + '.pre', 'backup', 'b'], now=w.now - 86400)
+        store.write_config(w.cfg, 'b', w.root, cfg_items, 1 if preseed else 3, 1 if preseed else 3)
         shim_env = {'FAULT': ';'.join(faults)} if faults else None
         r = store.run_vsb(ctx, ['-c', w.cfg, 'backup', 'b'], now=w.now, shim_env=shim_env)
         # observations
@@ -225,7 +234,7 @@ def one_case(ctx, cid, seed, mode):
         archived = None
         for g in dec:
             for b in dec[g]:
-                if dec[g][b]['entries'] is not None:
+                if dec[g][b]['entries'] is not None and (not preseed or b == bname):
                     archived = sorted(('dir' if e['type'] == 'dir' else 'link' if e['type'] == 'symlink' else 'file', '/' + e['path'])
                                       for e in dec[g][b]['entries'])
         hooks = open(hooklog).read().split() if os.path.exists(hooklog) else []
